@@ -853,6 +853,16 @@ def legal_moves(ctx: Ctx, f: FuncInfo) -> Optional[bool]:
         loc, src = st  # src: registry the id was taken from while in limbo
         a = n.ast
         normal = lab[0] in NORMAL_KINDS
+        if n.op == "test" and lab[0] in ("T", "F"):
+            # `id in <registry>` / `id not in <registry>`: decided by where the id is filed
+            t_, neg = a, False
+            while isinstance(t_, ast.UnaryOp) and isinstance(t_.op, ast.Not):
+                t_, neg = t_.operand, not neg
+            if isinstance(t_, ast.Compare) and len(t_.ops) == 1 and isinstance(t_.ops[0], (ast.In, ast.NotIn)) and reg(t_.comparators[0]) is not None:
+                holds = (loc == reg(t_.comparators[0])) == isinstance(t_.ops[0], ast.In)
+                if neg:
+                    holds = not holds
+                return [st] if holds == (lab[0] == "T") else []
         if n.op == "call" and isinstance(a, ast.Call) and isinstance(a.func, ast.Attribute) and a.func.attr == "pop" and a.args:
             r = reg(a.func.value)
             if r is not None:
@@ -876,6 +886,9 @@ def legal_moves(ctx: Ctx, f: FuncInfo) -> Optional[bool]:
                 if isinstance(t, ast.Subscript) and reg(t.value) is not None:
                     r = reg(t.value)
                     keys.add(ast.unparse(t.slice))
+                    if loc == "N":
+                        verdict[0] = False  # files an id that is in no registry: a task the pool has forgotten (flushed) comes back
+                        return [(r, None)]
                     if loc == "-":
                         if (src, r) not in legal:
                             verdict[0] = False
@@ -890,7 +903,7 @@ def legal_moves(ctx: Ctx, f: FuncInfo) -> Optional[bool]:
         return [st]
 
     per_init: Dict[str, bool] = {}
-    for init in ("R", "C", "E"):
+    for init in ("R", "C", "E", "N"):
         verdict[0] = True
         ai = AbsInt(ctx.an, transfer)
         exits = ai.run(f, (init, None))
@@ -903,6 +916,8 @@ def legal_moves(ctx: Ctx, f: FuncInfo) -> Optional[bool]:
         return None
     if all(per_init.values()):
         return True
+    if not per_init["N"]:
+        return False
     # which registries does the function take ids from?  If the moves are legal for ids that really are filed there, the
     # function may rely on a guard the analysis cannot see (e.g. task.cancelled()): not understood, not a violation
     sources = {regs[field_of(e.path)] for e in ctx.eff.of_func(f) if e.kind == "remove" and field_of(e.path) in regs and e.path.count(".") == 1}
